@@ -206,6 +206,10 @@ func (t *Tables) Scan(start int, text string) (size, action int) {
 		}
 	}
 	state = t.Dfa[state*t.NumSymbols] // end-of-input transition
+	for state >= 0 {
+		// An explicit {eoi} consumes the end-of-input symbol; its action is one more transition away.
+		state = t.Dfa[state*t.NumSymbols]
+	}
 	if actionStart == state && size > 0 {
 		// Backtrack.
 		return
